@@ -149,7 +149,8 @@ def job_exec(args):
             variants = [('real', None, False),
                         ('real tty', dict(out_tty=True), True),
                         ('real stderr-tty', dict(out_tty=False, err_tty=True, in_tty=True), False),
-                        ('real all-tty', dict(out_tty=True, err_tty=True, in_tty=True), False)]
+                        ('real all-tty', dict(out_tty=True, err_tty=True, in_tty=True), False),
+                        ('real stdin-data', None, False)]
             # ... one after the other in one directory that starts empty:
             # the second run finds the files of the first, and before the
             # third a sibling model is run there
@@ -158,8 +159,10 @@ def job_exec(args):
                 if vi == 2 and sib_argv:
                     X.exec_real(REPO, sib_argv, rng.randrange(1, 4294967295), rng, scratch, workdir=wd)
                     S.fired('sibling_run_between')
+                from sim.world import STDIN_TEXT
                 r = X.exec_real(REPO, argv, rng.randrange(1, 4294967295), rng, scratch,
-                                streams=streams, optimize=opt, workdir=wd)
+                                streams=streams, optimize=opt, workdir=wd,
+                                stdin_data=STDIN_TEXT if name == 'real stdin-data' else None)
                 if ref['outcome'] == 'rc:23' and r['outcome'] == 'ok':
                     r['outcome'] = 'rc:23'      # __main__ ignores main()'s return value
                 runs.append((name, r))
@@ -184,7 +187,7 @@ def job_exec(args):
                                      detail='%s: %s' % (name, first_diff(r['files'].get(k) or '', ref['files'].get(k) or ''))))
         h = hashlib.sha256(json.dumps([[n, r['outcome'], r['stdout'], r['files']] for n, r in runs],
                                       sort_keys=True).encode()).hexdigest()
-        return dict(ok=True, violations=viol, runs=len(runs) - 1, real=4 if spec.get('real') else 0,
+        return dict(ok=True, violations=viol, runs=len(runs) - 1, real=5 if spec.get('real') else 0,
                     faults=dict(S.FAULTS), digest=h, outcome=ref['outcome'],
                     plan=dict(kind='exec', seed=spec['seed'], argv=argv, npulses=npulses, sides=sides,
                               hashseeds=hashseeds, real=bool(spec.get('real')), sib_argv=sib_argv),
@@ -565,7 +568,7 @@ EXPECTED_PROBES = ['srm_flip', 'skin_asymptote_flip', 'revisit', 'near_then_far'
                    'history_contains_raise', 'stale_file_longer_than_new', 'geo_all_ge2_not_all',
                    'multi_media_far_field', 'sweep_negative_increment', 'round_frequencies',
                    'int_typed_frequency', 'mid_model', 'model:fault_floor', 'model:round_floor',
-                   'model:tolerance_floor', 'model:regime_floor', 'model:near_miss_junction',
+                   'model:tolerance_floor', 'model:regime_floor', 'model:twin_floor', 'model:near_miss_junction',
                    'model:near_miss_ground_contact']
 
 
